@@ -15,6 +15,10 @@ func main() {
 	tier := flag.String("tier", "quick", "quick | thorough")
 	worker := flag.Bool("worker", false, "worker mode (internal)")
 	replay := flag.String("replay", "", "replay artefact to re-execute")
+	trace := flag.String("trace", "", "debug: run one trace verbosely, e.g. \"put a S; merge; restart\"")
+	fsize := flag.Int64("fs", 130, "debug: DataFileSize for -trace")
+	iot := flag.Int("io", 0, "debug: FileIOType for -trace")
+	idx := flag.Int("index", 3, "debug: IndexType for -trace")
 	flag.Parse()
 	debug.SetPanicOnFault(true)
 	debug.SetGCPercent(400)
@@ -27,6 +31,13 @@ func main() {
 		os.Exit(130)
 	}()
 
+	if *trace != "" {
+		c := defaultCfg
+		c.FileSize, c.IO, c.Index = *fsize, byte(*iot), int8(*idx)
+		debugTrace(c, *trace)
+		cleanupScratch()
+		return
+	}
 	if *replay != "" {
 		data, err := os.ReadFile(*replay)
 		if err != nil {
